@@ -243,6 +243,10 @@ class CTMCGridProbabilityStep(CTMCGrid):
 
         mass = self.levy_measure.integrate
         p = 0.5 * mass(xi, xip) / self.intensity_of_jumps
+        if p == 0:
+            # no (float) mass in the gap: every interior point splits it into two parts of equal probability;
+            # the root search would return the end point xi and refine() would duplicate a state
+            return 0.5 * (xi + xip)
 
         def to_call(right):
             res = mass(xi, right)
@@ -253,6 +257,8 @@ class CTMCGridProbabilityStep(CTMCGrid):
             to_call, bracket=[xi, xip], method="brentq", x0=0.5 * (xi + xip), xtol=1e-10
         )
         sol = sol_right.root
+        if not xi < sol < xip:
+            sol = 0.5 * (xi + xip)
 
         return sol
 
